@@ -268,19 +268,20 @@ DevAttrs(c) ==
   IF m.err # "" THEN DevRec(KeyShift, "err", m.err, <<>>, <<>>, {})
   ELSE IF DupPlain(m.res) THEN DevRec(KeyShift, "err", "TypeError", <<>>, <<>>, {})
   ELSE LET c2 == [c EXCEPT !.kws = LastOnly(m.res)]
-           its2 == Items(c2) IN
-       \* a name that is not a Python identifier occurring twice: today the later one wins silently;
-       \* rejecting it like an identifier (TypeError) is predicted as well
-       IF DupAny(m.res) THEN DevRec(KeyShift, "items", "", <<>>, its2, ErrOk(its2) \cup {"TypeError"})
-       ELSE IF NumAppendRaises(c2) THEN DevRec(k(KeyNum), "err", "TypeError", <<>>, <<>>, {})
+           its2 == Items(c2)
+           \* a name that is not a Python identifier occurring twice: today the later one wins silently;
+           \* rejecting it like an identifier (TypeError) is predicted as well
+           dupErr == IF DupAny(m.res) THEN {"TypeError"} ELSE {} IN
+       IF NumAppendRaises(c2) THEN DevRec(k(KeyNum), "err", "TypeError", <<>>, <<>>, {})
        ELSE IF /\ \E i \in 1..Len(its2) : its2[i].cls = "unrep" /\ its2[i].kind \in {"bare", "val"}
                /\ \A i \in 1..Len(its2) : Cardinality(its2[i].vals) <= 1 /\ its2[i].kind # "zone"
-       THEN DevRec(k(KeyName), "parse", "", ParseAttrs(DevEmitText(its2)).attrs, <<>>, {})
-       ELSE IF shifted THEN DevRec(KeyShift, "items", "", <<>>, its2, ErrOk(its2))
+       THEN DevRec(k(KeyName), "parse", "", ParseAttrs(DevEmitText(its2)).attrs, <<>>, dupErr)
+       ELSE IF shifted THEN DevRec(KeyShift, "items", "", <<>>, its2, ErrOk(its2) \cup dupErr)
        ELSE NoDev
 DevExplains(d, obs) ==
   /\ d.key # ""
   /\ CASE d.mode = "err"   -> obs.err = d.err
-       [] d.mode = "parse" -> obs.err = "" /\ ~obs.spill /\ obs.attrs = d.attrs
+       [] d.mode = "parse" -> IF obs.err # "" THEN obs.err \in d.errok
+                              ELSE ~obs.spill /\ obs.attrs = d.attrs
        [] d.mode = "items" -> Conform([items |-> d.items, err |-> d.errok], obs)
 =============================================================================
